@@ -34,7 +34,20 @@ ChainExpands(ch, i) == IF i > Len(ch) THEN FALSE ELSE NodeExpands(ch[i]) \/ Chai
 RECURSIVE VarsMaxMembers(_, _)
 VarsMaxMembers(vs, i) == IF i > Len(vs) THEN 0 ELSE IMax(MaxMembers(vs[i].v), VarsMaxMembers(vs, i + 1))
 
-CaseMM(c) == IMax(MaxMembers(c.doc), VarsMaxMembers(c.vars, 1))
+RECURSIVE ChainHasKV(_, _), NodeHasKV(_)
+NodeHasKV(n) ==
+  CASE n.k = "method" -> n.name = "keyvalue"
+    [] n.k = "bin"    -> ChainHasKV(n.l, 1) \/ ChainHasKV(n.r, 1)
+    [] n.k \in {"un", "regex"} -> ChainHasKV(n.x, 1)
+    [] n.k = "filter" -> NodeHasKV(n.p)
+    [] n.k = "idx"    -> \E j \in 1..Len(n.subs) :
+                            ChainHasKV(n.subs[j].from, 1) \/ (n.subs[j].hasTo /\ ChainHasKV(n.subs[j].to, 1))
+    [] OTHER -> FALSE
+ChainHasKV(ch, i) == IF i > Len(ch) THEN FALSE ELSE NodeHasKV(ch[i]) \/ ChainHasKV(ch, i + 1)
+
+(* .keyvalue() generates objects with three members *)
+CaseMM(c) == IMax(IMax(MaxMembers(c.doc), VarsMaxMembers(c.vars, 1)),
+                  IF ChainHasKV(c.path.chain, 1) THEN 3 ELSE 0)
 Nondet(c) == ChainExpands(c.path.chain, 1) /\ CaseMM(c) >= 2
 
 (* Choice vectors enumerated: 4 expansions of 2-member objects, 2 of        *)
